@@ -115,6 +115,19 @@ Theorem C19_early_departure : forall ch stations evs st full st' x y,
 Proof. exact thm_early_departure. Qed.
 Print Assumptions C19_early_departure.
 
+(* every early departure hands its station to a waiting EV at once: within one
+   post_charging_update, #early unplugs = #admissions = #sessions that left = queue shrinkage
+   (so nobody is sent away early unless somebody was waiting for that station) *)
+Theorem C19_early_handover : forall ch stations early evs st full st',
+  NoDup stations -> wf evs -> run ch (init stations early) evs = Ok st ->
+  step ch st (PostCharge full) = Ok st' ->
+  early_unplug st' - early_unplug st = swaps st' - swaps st
+  /\ Z.of_nat (List.length (queue st)) = Z.of_nat (List.length (queue st')) + (swaps st' - swaps st)
+  /\ Z.of_nat (List.length (gone st')) = Z.of_nat (List.length (gone st)) + (swaps st' - swaps st)
+  /\ 0 <= swaps st' - swaps st.
+Proof. exact thm_early_handover. Qed.
+Print Assumptions C19_early_handover.
+
 (* ev.station_id (what the Unplug event will carry) is the station the EV sits at, None while it waits *)
 Theorem C19_station_id : forall ch stations early evs st,
   NoDup stations -> wf evs -> run ch (init stations early) evs = Ok st ->
